@@ -1,3 +1,492 @@
 package main
 
-func checkMain(args []string) int { return 2 }
+import (
+	"bufio"
+	"encoding/json"
+	"fmt"
+	"os"
+	"os/exec"
+	"path/filepath"
+	"regexp"
+	"runtime"
+	"sort"
+	"strconv"
+	"strings"
+	"time"
+)
+
+type ReplayIn struct {
+	Property string            `json:"property"`
+	Harness  string            `json:"harness"`
+	Tier     int               `json:"tier"`
+	Choices  []uint64          `json:"choices"`
+	Values   map[string]uint64 `json:"values"`
+	Expect   *ReplayExpect     `json:"expect,omitempty"`
+}
+
+type ReplayExpect struct {
+	Kind    string     `json:"kind"` // assert | panic | witness
+	Assert  string     `json:"assert,omitempty"`
+	Site    string     `json:"site,omitempty"`
+	Msg     string     `json:"msg,omitempty"`
+	Reached []string   `json:"reached,omitempty"`
+	Traces  []TraceRec `json:"traces,omitempty"`
+}
+
+type ReplayOut struct {
+	End     string     `json:"end"`
+	Msg     string     `json:"msg"`
+	Reached []string   `json:"reached"`
+	Failed  []string   `json:"failed"`
+	Traces  []TraceRec `json:"traces"`
+}
+
+type KnownFinding struct {
+	Property, Harness, Assert, Kind, Site, Desc string
+	Fixed                                       bool
+}
+
+func loadKnown() []KnownFinding {
+	var out []KnownFinding
+	f, err := os.Open(filepath.Join(verifDir, "known_findings.txt"))
+	if err != nil {
+		return nil
+	}
+	defer f.Close()
+	sc := bufio.NewScanner(f)
+	for sc.Scan() {
+		line := strings.TrimSpace(sc.Text())
+		if line == "" || strings.HasPrefix(line, "#") {
+			continue
+		}
+		k := KnownFinding{}
+		if strings.HasPrefix(line, "fixed:") {
+			k.Fixed = true
+		} else if !strings.HasPrefix(line, "known:") {
+			continue
+		}
+		body := line[strings.Index(line, ":")+1:]
+		if i := strings.Index(body, "|"); i >= 0 {
+			k.Desc = strings.TrimSpace(body[i+1:])
+			body = body[:i]
+		}
+		for _, f := range strings.Fields(body) {
+			kv := strings.SplitN(f, "=", 2)
+			if len(kv) != 2 {
+				continue
+			}
+			switch kv[0] {
+			case "property":
+				k.Property = kv[1]
+			case "harness":
+				k.Harness = kv[1]
+			case "assert":
+				k.Assert = kv[1]
+			case "kind":
+				k.Kind = kv[1]
+			case "site":
+				k.Site = kv[1]
+			}
+		}
+		out = append(out, k)
+	}
+	return out
+}
+
+func (k KnownFinding) matches(prop string, v *Violation) bool {
+	if k.Fixed || k.Property != prop {
+		return false
+	}
+	return k.Harness == v.Harness && k.Assert == v.Assert && k.Kind == v.Kind && (k.Site == "" || k.Site == shortFn(v.Site))
+}
+
+// nativeReplay runs the replay inputs of one package against the natively built harness.
+func nativeReplay(l *Loaded, short string, inputs map[string]*ReplayIn) (map[string]*ReplayOut, string, error) {
+	tmp, err := os.MkdirTemp("", "symgo-replay-")
+	if err != nil {
+		return nil, "", err
+	}
+	defer os.RemoveAll(tmp)
+	inDir := filepath.Join(tmp, "in")
+	os.MkdirAll(inDir, 0755)
+	for name, in := range inputs {
+		b, _ := json.Marshal(in)
+		os.WriteFile(filepath.Join(inDir, name+".in.json"), b, 0644)
+	}
+	dir := filepath.Join(repoDir, pkgDirs[short])
+	// generated test file listing the harness functions
+	var sb strings.Builder
+	pkgName := short
+	sb.WriteString("//go:build verif\n\npackage " + pkgName + "\n\nimport \"testing\"\n\nfunc TestVerifReplay(t *testing.T) {\n\tvRunReplays(map[string]func(){\n")
+	for _, h := range l.harnesses[short] {
+		fmt.Fprintf(&sb, "\t\t%q: %s,\n", h, h)
+	}
+	sb.WriteString("\t})\n}\n")
+	ov := map[string]string{}
+	testFile := filepath.Join(tmp, "zz_verif_replay_test.go")
+	os.WriteFile(testFile, []byte(sb.String()), 0644)
+	ov[filepath.Join(dir, "zz_verif_replay_test.go")] = testFile
+	i := 0
+	for virt, src := range l.overlay {
+		if filepath.Dir(virt) != dir {
+			continue
+		}
+		i++
+		real := filepath.Join(tmp, fmt.Sprintf("ov%d.go", i))
+		os.WriteFile(real, src, 0644)
+		ov[virt] = real
+	}
+	ovb, _ := json.Marshal(map[string]interface{}{"Replace": ov})
+	ovFile := filepath.Join(tmp, "overlay.json")
+	os.WriteFile(ovFile, ovb, 0644)
+	cmd := exec.Command("go", "test", "-tags", "verif", "-overlay", ovFile, "-run", "^TestVerifReplay$", "-count=1", "-vet=off", "-timeout", "20m", ".")
+	cmd.Dir = dir
+	cmd.Env = append(os.Environ(), "GOFLAGS=-mod=mod", "GOPROXY=off", "GOSUMDB=off", "GOTOOLCHAIN=local", "VERIF_REPLAY_DIR="+inDir, "GOMAXPROCS=1")
+	outb, err := cmd.CombinedOutput()
+	res := map[string]*ReplayOut{}
+	for name := range inputs {
+		b, e := os.ReadFile(filepath.Join(inDir, name+".out.json"))
+		if e != nil {
+			continue
+		}
+		o := &ReplayOut{}
+		if json.Unmarshal(b, o) == nil {
+			res[name] = o
+		}
+	}
+	return res, string(outb), err
+}
+
+func tracesEqual(a, b []TraceRec) (bool, string) {
+	if len(a) != len(b) {
+		return false, fmt.Sprintf("trace length %d vs %d", len(a), len(b))
+	}
+	for i := range a {
+		if a[i] != b[i] {
+			return false, fmt.Sprintf("trace[%d] engine %s=%d native %s=%d", i, a[i].ID, a[i].Val, b[i].ID, b[i].Val)
+		}
+	}
+	return true, ""
+}
+
+func strsEqual(a, b []string) bool {
+	if len(a) != len(b) {
+		return false
+	}
+	for i := range a {
+		if a[i] != b[i] {
+			return false
+		}
+	}
+	return true
+}
+
+func envInt(name string, def int) int {
+	if v := os.Getenv(name); v != "" {
+		if n, err := strconv.Atoi(v); err == nil {
+			return n
+		}
+	}
+	return def
+}
+
+type tierCfg struct {
+	maxPaths int
+	timeout  time.Duration
+	witnessN int
+}
+
+func checkMain(args []string) int {
+	if len(args) < 2 {
+		fatal("usage: symgo check <property> quick|thorough")
+	}
+	prop := args[0]
+	tierName := args[1]
+	tier := 0
+	cfg := tierCfg{maxPaths: 400000, timeout: 8 * time.Minute, witnessN: 6}
+	if tierName == "thorough" {
+		tier = 1
+		cfg = tierCfg{maxPaths: 5000000, timeout: 100 * time.Minute, witnessN: 24}
+	}
+	if v := os.Getenv("VERIF_TIMEOUT_S"); v != "" {
+		cfg.timeout = time.Duration(envInt("VERIF_TIMEOUT_S", 480)) * time.Second
+	}
+	seed := int64(envInt("VERIF_SEED", 0))
+	solver := os.Getenv("VERIF_SOLVER")
+	if solver == "" {
+		solver = "z3-new"
+	}
+	start := time.Now()
+	l := load()
+	pat := regexp.MustCompile("^" + prop + "_")
+	hs := runEngine(l, RunConfig{Pattern: pat, Tier: tier, Workers: envInt("VERIF_WORKERS", runtime.NumCPU()), MaxPaths: cfg.maxPaths,
+		Timeout: cfg.timeout, Solver: solver, WitnessN: cfg.witnessN})
+	if len(hs) == 0 {
+		fmt.Printf("INCONCLUSIVE property=%s no harness available (dropped: %v)\n", prop, l.dropped)
+		return 2
+	}
+	known := loadKnown()
+	inconclusive := []string{}
+
+	// collect replay inputs
+	type pending struct {
+		name  string
+		in    *ReplayIn
+		viol  *Violation
+		wit   *Witness
+		short string
+	}
+	var pend []*pending
+	for _, h := range hs {
+		short := h.Name[:strings.Index(h.Name, ".")]
+		s := h.Stats
+		if s.Incomplete {
+			inconclusive = append(inconclusive, h.Name+": exploration incomplete (path/time budget)")
+		}
+		for _, e := range s.Errors {
+			inconclusive = append(inconclusive, h.Name+": "+e)
+		}
+		if s.Paths == 0 && len(s.Errors) == 0 {
+			inconclusive = append(inconclusive, h.Name+": vacuous (no feasible path)")
+		}
+		for i, v := range s.Violations {
+			in := &ReplayIn{Property: prop, Harness: h.Name, Tier: tier, Choices: v.Choices, Values: v.Values,
+				Expect: &ReplayExpect{Kind: v.Kind, Assert: v.Assert, Site: shortFn(v.Site), Msg: v.Msg}}
+			pend = append(pend, &pending{name: fmt.Sprintf("%s-viol%d", h.Name, i), in: in, viol: v, short: short})
+		}
+		for i, wt := range s.Witnesses {
+			in := &ReplayIn{Property: prop, Harness: h.Name, Tier: tier, Choices: wt.Choices, Values: wt.Values,
+				Expect: &ReplayExpect{Kind: "witness", Reached: wt.Reached, Traces: wt.Traces}}
+			pend = append(pend, &pending{name: fmt.Sprintf("%s-wit%d", h.Name, i), in: in, wit: wt, short: short})
+		}
+	}
+	// run native replays per package
+	outs := map[string]*ReplayOut{}
+	byPkg := map[string]map[string]*ReplayIn{}
+	for _, p := range pend {
+		if byPkg[p.short] == nil {
+			byPkg[p.short] = map[string]*ReplayIn{}
+		}
+		byPkg[p.short][p.name] = p.in
+	}
+	replayStart := time.Now()
+	for short, ins := range byPkg {
+		res, log, err := nativeReplay(l, short, ins)
+		for k, v := range res {
+			outs[k] = v
+		}
+		if len(res) != len(ins) {
+			inconclusive = append(inconclusive, fmt.Sprintf("native replay for package %s incomplete (%d of %d outputs): %v\n%s", short, len(res), len(ins), err, tail(log, 3000)))
+		}
+	}
+	replayTime := time.Since(replayStart)
+
+	validated := 0
+	violations := 0
+	knownHits := map[string]bool{}
+	replayDir := filepath.Join(verifDir, "replays", prop)
+	os.RemoveAll(replayDir)
+	var violLines []string
+	sampleViol := []map[string]interface{}{}
+	for _, p := range pend {
+		out := outs[p.name]
+		if out == nil {
+			continue
+		}
+		if p.wit != nil {
+			ok := out.End == "done" && strsEqual(out.Reached, p.wit.Reached) && len(out.Failed) == 0
+			why := ""
+			if ok {
+				ok, why = tracesEqual(p.wit.Traces, out.Traces)
+			} else {
+				why = fmt.Sprintf("native end=%s msg=%s reached=%v failed=%v; engine reached=%v", out.End, firstLine(out.Msg), out.Reached, out.Failed, p.wit.Reached)
+			}
+			if ok {
+				validated++
+			} else {
+				b, _ := json.Marshal(p.in)
+				inconclusive = append(inconclusive, fmt.Sprintf("%s: witness replay mismatch (engine/translator disagreement): %s input=%s", p.in.Harness, why, b))
+			}
+			continue
+		}
+		v := p.viol
+		repro := false
+		switch {
+		case v.Kind == "assert":
+			for _, f := range out.Failed {
+				if f == v.Assert {
+					repro = true
+				}
+			}
+		case strings.HasPrefix(v.Kind, "panic"):
+			repro = out.End == "panic"
+		case v.Kind == "unwind":
+			repro = false
+		}
+		isKnown := false
+		for _, k := range known {
+			if k.matches(prop, v) {
+				isKnown = true
+				key := k.Harness + "|" + k.Assert + "|" + k.Kind + "|" + k.Site
+				if repro && !knownHits[key] {
+					knownHits[key] = true
+					fmt.Printf("KNOWN-FINDING: property=%s harness=%s assert=%s kind=%s site=%s %s\n", prop, v.Harness, v.Assert, v.Kind, shortFn(v.Site), k.Desc)
+				}
+			}
+		}
+		if isKnown && repro {
+			validated++
+			continue
+		}
+		if !repro {
+			if v.Kind == "unwind" {
+				inconclusive = append(inconclusive, fmt.Sprintf("%s: unwinding/concretisation bound exceeded at %s: %s", v.Harness, shortFn(v.Site), v.Msg))
+			} else {
+				b, _ := json.Marshal(p.in)
+				inconclusive = append(inconclusive, fmt.Sprintf("%s: counterexample for %s (%s at %s) did NOT reproduce natively (native end=%s failed=%v msg=%s) input=%s", v.Harness, v.Assert, v.Kind, shortFn(v.Site), out.End, out.Failed, firstLine(out.Msg), b))
+			}
+			continue
+		}
+		validated++
+		violations++
+		os.MkdirAll(replayDir, 0755)
+		path := filepath.Join(replayDir, p.name+".json")
+		b, _ := json.MarshalIndent(p.in, "", " ")
+		os.WriteFile(path, b, 0644)
+		violLines = append(violLines, fmt.Sprintf("VIOLATION property=%s replay=%s", prop, path))
+		fmt.Printf("  detail: harness=%s assert=%s kind=%s site=%s msg=%s native=%s\n", v.Harness, v.Assert, v.Kind, shortFn(v.Site), v.Msg, firstLine(out.Msg))
+		if len(sampleViol) < 5 {
+			sampleViol = append(sampleViol, map[string]interface{}{"harness": v.Harness, "assert": v.Assert, "kind": v.Kind, "site": shortFn(v.Site), "values": v.Values, "choices": v.Choices})
+		}
+	}
+	// global writes (C19 obligation O1) are reported for every property
+	for _, h := range hs {
+		for _, g := range h.Stats.GlobalWrite {
+			fmt.Printf("NOTE: %s: store to package-level state after init: %s\n", h.Name, g)
+		}
+	}
+
+	// evidence
+	writeEvidence(prop, tierName, tier, seed, solver, l, hs, validated, violations, len(knownHits), inconclusive, time.Since(start), replayTime, sampleViol)
+
+	for _, h := range hs {
+		s := h.Stats
+		fmt.Printf("%-44s paths=%d pruned=%d instrs=%d queries=%d (sat %d / unsat %d) solver=%s\n", s.Name, s.Paths, s.Pruned, s.Instrs, s.Queries, s.Sat, s.Unsat, s.SolverTime.Round(time.Millisecond))
+	}
+	fmt.Printf("property=%s tier=%s harnesses=%d native-replays-validated=%d violations=%d known=%d wall=%.1fs\n", prop, tierName, len(hs), validated, violations, len(knownHits), time.Since(start).Seconds())
+	for _, v := range violLines {
+		fmt.Println(v)
+	}
+	if violations > 0 {
+		return 1
+	}
+	if len(inconclusive) > 0 {
+		for _, m := range inconclusive {
+			fmt.Printf("INCONCLUSIVE property=%s %s\n", prop, m)
+		}
+		return 2
+	}
+	return 0
+}
+
+func firstLine(s string) string {
+	if i := strings.IndexByte(s, '\n'); i >= 0 {
+		return s[:i]
+	}
+	return s
+}
+
+func tail(s string, n int) string {
+	if len(s) > n {
+		return s[len(s)-n:]
+	}
+	return s
+}
+
+func writeEvidence(prop, tierName string, tier int, seed int64, solver string, l *Loaded, hs []*Harness, validated, violations, known int, inconclusive []string, wall, replayTime time.Duration, sampleViol []map[string]interface{}) {
+	paths, pruned, queries, sat, unsat := 0, 0, 0, 0, 0
+	var instrs int64
+	var st time.Duration
+	funcs := map[string]bool{}
+	perH := []map[string]interface{}{}
+	samples := []interface{}{}
+	assertIDs := 0
+	for _, h := range hs {
+		s := h.Stats
+		paths += s.Paths
+		pruned += s.Pruned
+		queries += s.Queries
+		sat += s.Sat
+		unsat += s.Unsat
+		instrs += s.Instrs
+		st += s.SolverTime
+		for f := range s.Funcs {
+			funcs[f] = true
+		}
+		assertIDs += len(s.Asserts)
+		perH = append(perH, map[string]interface{}{"harness": s.Name, "paths": s.Paths, "pruned_infeasible": s.Pruned, "ssa_instructions": s.Instrs,
+			"queries": s.Queries, "sat": s.Sat, "unsat": s.Unsat, "solver_time_s": s.SolverTime.Seconds(), "max_decision_depth": s.MaxDepth,
+			"assertions_reached_paths": s.Asserts, "incomplete": s.Incomplete, "errors": s.Errors})
+		for i, wt := range s.Witnesses {
+			if i >= 2 {
+				break
+			}
+			samples = append(samples, map[string]interface{}{"harness": s.Name, "kind": "path-witness (solver model of one explored path, replayed natively)", "choices": wt.Choices, "inputs": wt.Values, "assertions_reached": wt.Reached, "trace_len": len(wt.Traces)})
+		}
+	}
+	for _, v := range sampleViol {
+		samples = append(samples, v)
+	}
+	if len(samples) == 0 {
+		samples = append(samples, map[string]interface{}{"note": "no path completed"})
+	}
+	var fl []string
+	for f := range funcs {
+		fl = append(fl, f)
+	}
+	sort.Strings(fl)
+	if paths < 1 {
+		paths = 0
+	}
+	ev := map[string]interface{}{
+		"property_id": prop,
+		"tier":        tierName,
+		"seed":        seed,
+		"level":       "model_checking",
+		"wall_s":      wall.Seconds(),
+		"violations":  violations,
+		"coverage": map[string]interface{}{
+			"states":                        paths,
+			"transitions":                   instrs,
+			"traces_validated_against_impl": validated,
+			"samples":                       samples,
+			"exhaustive":                    false,
+			"explanation":                   "bounded symbolic execution of the go/ssa form of the real code (rebuilt from /repo on this run); states = symbolic paths explored to completion, each covering every value of its symbolic inputs; transitions = SSA instructions executed symbolically; every assertion and every implicit Go run-time check on every path was decided by the SMT solver (unsat = holds for all inputs on that path)",
+			"technique":                     "SSA symbolic execution + SMT (" + solver + ")",
+			"solver":                        solver,
+			"queries_discharged":            queries,
+			"queries_sat":                   sat,
+			"queries_unsat":                 unsat,
+			"solver_time_s":                 st.Seconds(),
+			"native_replay_time_s":          replayTime.Seconds(),
+			"paths_pruned_infeasible":       pruned,
+			"known_findings_hit":            known,
+			"functions_encoded":             fl,
+			"harnesses":                     perH,
+			"dropped_harness_files":         l.dropped,
+			"inconclusive":                  inconclusive,
+			"load_time_s":                   l.loadTime.Seconds(),
+			"distinct_assertion_ids":        assertIDs,
+		},
+		"assumptions": []string{
+			"bounds are those coded in the harness sources under /verif/harness (sizes, sequence depths, choice sets); anything beyond them is outside the claim",
+			"int is 64 bit; integer arithmetic is modelled bit-precisely with wrap-around",
+			"intrinsics: bytes.IndexByte/Equal/EqualFold (ASCII folding), math/rand (arbitrary values), sync.Pool (always New), gobwas/pool pbytes/pbufio (fresh buffers with arbitrary content, release tracking), fmt.Errorf/Sprintf (concrete rendering), crypto/sha1 on concrete data",
+			"transports, destinations and callbacks are harness stubs constrained only by the io.Reader/io.Writer contracts",
+			"compress/flate, crypto/tls, net/http parsers, the Go scheduler and GC are not modelled",
+		},
+	}
+	os.MkdirAll(filepath.Join(verifDir, "evidence"), 0755)
+	b, _ := json.MarshalIndent(ev, "", " ")
+	os.WriteFile(filepath.Join(verifDir, "evidence", prop+".json"), b, 0644)
+}
